@@ -45,8 +45,8 @@ inductive Variant where
 deriving Repr, DecidableEq, Inhabited
 
 /-- Which behaviour the correspondence run expects from the implementation. -/
-def activeHealth : Variant := .pinned
-def activeUnifier : Variant := .pinned
+def activeHealth : Variant := .fixed
+def activeUnifier : Variant := .fixed
 
 /-! ## health.CircuitBreaker -/
 
